@@ -6,6 +6,7 @@ import (
 	"math/rand"
 	"os"
 	"time"
+	"unicode/utf8"
 
 	"github.com/vektah/gqlparser/v2"
 	"github.com/vektah/gqlparser/v2/ast"
@@ -180,7 +181,9 @@ func checkC10(c *core.Ctx) {
 	// while overlapping, exclusive-then-shared) and every third document of the merge family of C08
 	for _, f := range adversaryFamilies {
 		for _, n := range []int{2, 3, 5} {
-			rq.Pairs = append(rq.Pairs, []string{adversarySDL, adversaryDoc(f, n)})
+			if d := adversaryDoc(f, n); utf8.ValidString(d) { // (texts travel to the worker processes as JSON)
+				rq.Pairs = append(rq.Pairs, []string{adversarySDL, d})
+			}
 		}
 	}
 	for i, q := range mergeFamilyDocs() {
